@@ -558,6 +558,94 @@ func main() {
 		}
 	}
 
+	// ---------------- E: verifier queue ----------------
+	queueCase := func(nw, k, batch int, endMode int, shuffle bool) {
+		c.Obs.Evaluations++
+		c.Count("queue")
+		// consecutive windows with varying limits
+		var W []tg.FileHash
+		off := int64(0)
+		for i := 0; i < nw; i++ {
+			l := 1 + c.Rng.Intn(5)
+			W = append(W, tg.FileHash{Offset: off, Limit: l})
+			off += int64(l)
+		}
+		total := off
+		if k > nw {
+			k = nw
+		}
+		pre := append([]tg.FileHash(nil), W[:k]...)
+		if shuffle {
+			for i := len(pre) - 1; i > 0; i-- {
+				j := c.Rng.Intn(i + 1)
+				pre[i], pre[j] = pre[j], pre[i]
+			}
+		}
+		server := func(o int64) []tg.FileHash {
+			if o >= total {
+				switch endMode {
+				case 0:
+					return nil
+				default: // the last batch again
+					s := max(0, nw-batch)
+					return append([]tg.FileHash(nil), W[s:]...)
+				}
+			}
+			for i, w := range W {
+				if w.Offset == o {
+					e := min(nw, i+batch)
+					b := append([]tg.FileHash(nil), W[i:e]...)
+					if shuffle && len(b) > 1 {
+						b[0], b[len(b)-1] = b[len(b)-1], b[0]
+					}
+					return b
+				}
+			}
+			return nil
+		}
+		v := downloader.VerifNewVerifier(pre...)
+		var served, asked []string
+		var got []tg.FileHash
+		finished := false
+		for steps := 0; steps < 4*nw+8; steps++ {
+			h, ok := v.Pop()
+			if !ok {
+				o, _ := v.State()
+				b := server(o)
+				bs := make([]string, len(b))
+				for i, x := range b {
+					bs[i] = hx.Tuple(hx.Z(x.Offset), hx.Z(int64(x.Limit)))
+				}
+				asked = append(asked, hx.Tuple(hx.Z(o), hx.List(bs)))
+				h, ok = v.Update(b...)
+				if !ok {
+					finished = true
+					break
+				}
+			}
+			got = append(got, h)
+			served = append(served, hx.Tuple(hx.Z(h.Offset), hx.Z(int64(h.Limit))))
+		}
+		ps := make([]string, len(pre))
+		for i, x := range pre {
+			ps[i] = hx.Tuple(hx.Z(x.Offset), hx.Z(int64(x.Limit)))
+		}
+		// the model looks an answer up by the asked offset: keep the first answer per offset (they are functions of it)
+		sh, ix := c.Case(fmt.Sprintf("CQueue %s %s %s %s", hx.List(ps), hx.List(asked), hx.List(served), hx.B(finished)),
+			map[string]interface{}{"queue": true, "windows": nw, "pre": k, "batch": batch, "end_mode": endMode, "shuffle": shuffle})
+		if nw > batch {
+			c.Nontrivial(fmt.Sprintf("queue %d %d %d %d %v", nw, k, batch, endMode, shuffle))
+		}
+		// oracle: every window once, in offset order, no gaps, then the end
+		okSeq := finished && len(got) == nw
+		for i := 0; okSeq && i < nw; i++ {
+			okSeq = got[i].Offset == W[i].Offset && got[i].Limit == W[i].Limit
+		}
+		if !okSeq {
+			c.Violate("verifier-queue-wrong-order-or-gap", fmt.Sprintf("verifier queue over %d windows (pre %d, batch %d, end mode %d, shuffled %v) served %v finished=%v", nw, k, batch, endMode, shuffle, served, finished), sh, ix, nil)
+		}
+	}
+
 	var rp struct {
 		Plan []int64 `json:"plan"`
 		File *fcase  `json:"file"`
@@ -660,6 +748,11 @@ func main() {
 		verifyCase(vc)
 	}
 
+	// E: verifier queue
+	for i := 0; i < c.N(200, 5000); i++ {
+		queueCase(c.Rng.Range(0, 12), c.Rng.Range(0, 4), c.Rng.Range(1, 5), c.Rng.Intn(2), c.Rng.Chance(1, 3))
+	}
+
 	// D: whole files. Sizes: 4 windows + tail, exact multiple of the window, less than one window.
 	sizes := []int64{4*window + 1000, 4 * window, 3*window + window/2, 70 * kib}
 	parts := []int{128 * kib, 256 * kib, 512 * kib, 192 * kib, 96 * kib, 320 * kib} // aligned and not aligned with the 128 KiB windows
@@ -703,6 +796,6 @@ func main() {
 		keys = append(keys, k)
 	}
 	sort.Strings(keys)
-	c.Obs.Rule = "plans: every (offset, limit) on the 4 KiB grid up to 3 MiB against the oracle (a structured sample and random far offsets also against the Coq model), invalid inputs; CTR: random keys/IVs/offsets incl. the 2^32-block wrap against the per-block counter keystream (a sample also against the Coq AES model); verifyChunk: tiny hash windows with genuine / corrupted / truncated / extended chunks, corrupted windows and lying hashes; whole downloads (cdn inline, cdn + verifier, master + verifier) x sizes x aligned and unaligned part sizes x attacks {corrupt, truncate at / off a window boundary / to nothing, extend, reorder, lying hash} with token refresh and reupload events; non-trivial = distinct multi-step plan, tampered verify case, or download in which the attack was applied"
+	c.Obs.Rule = "plans: every (offset, limit) on the 4 KiB grid up to 3 MiB against the oracle (a structured sample and random far offsets also against the Coq model), invalid inputs; CTR: random keys/IVs/offsets incl. the 2^32-block wrap against the per-block counter keystream (a sample also against the Coq AES model); verifyChunk: tiny hash windows with genuine / corrupted / truncated / extended chunks, corrupted windows and lying hashes; verifier queue: random consecutive window lists, seed prefixes, batch sizes, shuffled batches, both end-of-list server behaviours; whole downloads (cdn inline, cdn + verifier, master + verifier) x sizes x aligned and unaligned part sizes x attacks {corrupt, truncate at / off a window boundary / to nothing, extend, reorder, lying hash} with token refresh and reupload events; non-trivial = distinct multi-step plan, tampered verify case, or download in which the attack was applied"
 	c.Finish()
 }
